@@ -228,6 +228,8 @@ class Prop(PropBase):
                     if k not in ka:
                         out.append(fail('save-persists', f'save() target {k!r} missing from context after {src!r}',
                                         'save-not-persisted'))
+            out += self.mon_save_at_call(case, obs, src)
+            out += self.mon_exec_oracle(case, obs, src)
             if ok:
                 out += self.mon_saved_values(case, obs)
             else:
@@ -253,6 +255,73 @@ class Prop(PropBase):
             out.append(fail('no-leak', '__builtins__ appeared in context', 'builtins-in-context'))
         # in-place mutation of a context list through its name stays visible
         out += self.mon_inplace(case, obs, rebound)
+        return out
+
+    def mon_save_at_call(self, case, obs, src):
+        """save(k) writes context[k] at the moment of the call: the saves of a prefix of the block that cannot
+        fail (`x = <literal>`, save of bound names / literal or context-key keywords) have taken effect
+        whatever happens afterwards — also when a later statement raises."""
+        if obs.get('too_big'):
+            return []
+        block = case['block']
+        lit = ('int', 'str', 'bool', 'none')
+        bound = {k for k, _ in case['ctx']} - {'save', '__builtins__'}
+        must = {}          # key -> literal value or None (value not checkable)
+        n = 0
+        for s in block:
+            if s[0] == 'assign' and s[2][0] in lit and s[1] not in ('save', '__builtins__'):
+                bound.add(s[1])
+                if s[1] in must:
+                    pass
+            elif s[0] == 'save' and all(x in bound for x in s[1]) and \
+                    all(e[0] in lit or (e[0] == 'name' and e[1] in bound) for _, e in s[2]):
+                for x in s[1]:
+                    must[x] = None
+                for k, e in s[2]:
+                    must[k] = ('lit', None if e[0] == 'none' else e[1]) if e[0] in lit else None
+            else:
+                break
+            n += 1
+        later = set(L.save_targets(block[n:]))
+        cmap = {k: v for k, v in obs['ctx']}
+        out = []
+        failed = obs['results'][0][0] != 'ok'
+        for k, want in must.items():
+            fp = 'save-lost-when-block-raises' if failed else 'save-not-persisted'
+            if k not in cmap:
+                out.append(fail('save-at-call', f'py block {src!r}: save() of {k!r} ran'
+                                + (' before the block raised ' + repr(obs['results'][0][1]) if failed else '')
+                                + f' but {k!r} is not in context', fp))
+            elif want is not None and k not in later and (type(cmap[k]) is not type(want[1]) or cmap[k] != want[1]):
+                out.append(fail('save-at-call', f'py block {src!r}: save({k}={want[1]!r}) ran but context has {cmap[k]!r}', fp))
+        return out
+
+    def mon_exec_oracle(self, case, obs, src):
+        """the block under plain Python with save writing the real mapping at call time (c14_run.exec_oracle):
+        same outcome class, same final context.  Blocks with import statements are left out (what is in
+        sys.modules differs between the two runs), so are id() calls."""
+        orc = obs.get('oracle')
+        if not orc or obs.get('too_big'):
+            return []
+        block = case['block']
+        if any(s[0] in L.IMPORT_KINDS for s in block):
+            return []
+        if any(x[0] == 'call' and x[1] == ['name', 'id'] for e in case_exprs(case) for x in L.walk(e)):
+            return []
+        mine = obs['results'][0][0] if obs['results'][0][0] == 'ok' else obs['results'][0][1]
+        out = []
+        uses_view = any(x[0] == 'name' and x[1] == 'peek' for e in case_exprs(case) for x in L.walk(e))
+        if mine != orc['outcome']:
+            out.append(fail('exec-as-plain-python', f'py block {src!r} ended with {mine!r}; plain Python with save '
+                                                    f'writing at call time ends with {orc["outcome"]!r}',
+                            'save-not-at-call-time' if uses_view else 'exec-differs-from-plain-python'))
+        elif obs['plain_ctx'] != orc['ctx']:
+            diff = [k for k, v in orc['ctx'] if [k, v] not in obs['plain_ctx']] + \
+                   [k for k, v in obs['plain_ctx'] if [k, v] not in orc['ctx']]
+            fp = ('save-lost-when-block-raises' if mine != 'ok' else
+                  'save-not-at-call-time' if uses_view else 'exec-differs-from-plain-python')
+            out.append(fail('exec-as-plain-python', f'after py block {src!r} ({mine}) context differs from plain Python '
+                                                    f'with save writing at call time, at {sorted(set(diff))[:4]!r}', fp))
         return out
 
     def mon_saved_values(self, case, obs):
@@ -325,11 +394,11 @@ class Prop(PropBase):
         for e, ok in simple:
             k = e[1][1]
             v = cmap.get(k)
-            if not ok or not isinstance(v, dict) or k in rebinders or k in ('save', '__builtins__'):
+            if not ok or not isinstance(v, dict) or 'ref' not in v or k in rebinders or k in ('save', '__builtins__'):
                 return []
             counts[v['ref']] = counts.get(v['ref'], 0) + 1
         for k, v in case['ctx']:
-            if isinstance(v, dict) and v['ref'] in counts and k not in rebound and k in obs['list_lens_after']:
+            if isinstance(v, dict) and 'ref' in v and v['ref'] in counts and k not in rebound and k in obs['list_lens_after']:
                 want = len(case['heap'][v['ref']]) + counts[v['ref']]
                 if obs['list_lens_after'][k] != want:
                     out.append(fail('inplace-visible',
@@ -381,6 +450,10 @@ class Prop(PropBase):
                 feats.add('import:from-several-names')
         if case.get('pkg'):
             feats.add('throwaway-package')
+        if any(isinstance(v, dict) and 'view' in v for _, v in case['ctx']):
+            feats.add('ctx-has-live-view')
+        if case['kind'] == 'exec' and obs['results'][0][0] != 'ok' and any(s[0] == 'save' for s in case['block']):
+            feats.add('save-then-raise' if obs['ctx'] != [[k, v] for k, v in obs['ctx'] if k in obs['keys_before']] else 'raise-with-save-in-block')
         if any(st[0] == 'drop' for st in case.get('steps', [])):
             feats.add('ctx-key-hiding-import-dropped')
         if case.get('steps'):
